@@ -45,12 +45,48 @@ def run(ctx):
             if not ctx.quick():
                 core.leanchecker(ctx, ["ButlerModel.Props.C09"])
     with repo.Scratch("verif-c09-") as tmp:
+        trust_shared_witness(ctx, tmp)  # corpus: the recorded witness of C09-d runs first
         arthist.histories(ctx, built, tmp, mode="C09")
         arthist.histories(ctx, False, tmp, mode="C09", trust=True)
         hostile_names(ctx, built, tmp)
 
 
 # ---------------------------------------------------------------------------------------------- hostile names
+def trust_shared_witness(ctx, tmp):
+    """Corpus (finding C09-d): a datastore in trust mode, one file ingested for two datasets (it is named after the first), the
+    first dataset unstored and later purged: the file must stay as long as the second dataset is stored."""
+    from lsst.daf.butler import Butler, Config, DatasetRef, DatasetType, FileDataset
+
+    root = os.path.join(tmp, "trust-shared")
+    Butler.makeRepo(root, config=Config({"datastore": {"trust_get_request": True}}))
+    b = Butler.from_config(root, writeable=True, run="run1")
+    b.registry.insertDimensionData("instrument", {"name": "I"})
+    for i in (1, 2):
+        b.registry.insertDimensionData("detector", {"instrument": "I", "id": i, "full_name": f"d{i}"})
+    dt = DatasetType("dt", {"instrument", "detector"}, "StructuredDataDict", universe=b.dimensions)
+    b.registry.registerDatasetType(dt)
+    src = os.path.join(tmp, "trust-shared.yaml")
+    with open(src, "w") as fh:
+        fh.write("s: 12\n")
+    r1, r2 = (DatasetRef(dt, b.registry.expandDataId(instrument="I", detector=i), run="run1") for i in (1, 2))
+    b.ingest(FileDataset(path=src, refs=[r1, r2]), transfer="copy")
+    os.remove(src)
+    b.pruneDatasets([r1], unstore=True, disassociate=False, purge=False)
+    b.pruneDatasets([r1], purge=True, unstore=True, disassociate=True)
+    ctx.evaluations += 1
+    ctx.count("corpus:trust-shared-file")
+    try:
+        ok = b.get(r2) == {"s": 12}
+        err = None
+    except Exception as e:
+        ok, err = False, type(e).__name__
+    if not ok:
+        ctx.violations.append(core.Violation(
+            what="trust mode: one file ingested for datasets (1, 2); after `unstore [1]` and `purge [1]` the file is gone although dataset 2, "
+                 f"still stored, refers to it ({err})", key="trust-purge-of-unstored-deletes-shared-artifact",
+            replay={"kind": "corpus", "ops": ["ingest-copy [1, 2] (one file)", "unstore [1]", "purge [1]", "get 2"]}))
+
+
 def hexs(s):
     return s.encode().hex() if s else "-"
 
